@@ -119,7 +119,15 @@ func optionSweep(lo, hi int) {
 		}
 		ts, sack, ws := r.Bool(), r.Bool(), []int{-1, 0, 5, 14}[r.Intn(4)]
 		own := r.U32()
-		conn, _ := p.Establish(rawpeer.EstOpts{Active: r.Bool(), LPort: 80, PPort: uint16(20000 + k%20000), PeerISS: r.U32(), OwnISS: &own, MSS: []uint16{0, 536, 1460, 9000}[r.Intn(4)], WS: ws, TS: ts, SACK: sack, Window: 65535})
+		mss := []uint16{0, 536, 1460, 9000}[r.Intn(4)]
+		// packets at the 16-bit limit of the IPv4 total-length field: a link without a smaller
+		// MTU (loopback-like), a peer that accepts segments of any size, a write larger than one
+		big := mtu == 65535 && r.Bool()
+		if big {
+			mss = 65535
+			run.Count("option_sweep_connections_with_maximum_sized_segments", 1)
+		}
+		conn, _ := p.Establish(rawpeer.EstOpts{Active: r.Bool(), LPort: 80, PPort: uint16(20000 + k%20000), PeerISS: r.U32(), OwnISS: &own, MSS: mss, WS: ws, TS: ts, SACK: sack, Window: 65535})
 		if conn != nil {
 			// out-of-order data creates 1..4 SACK blocks on the stack's ACKs
 			off := int64(0)
@@ -131,6 +139,9 @@ func optionSweep(lo, hi int) {
 			}
 			// payload lengths: every odd/even length near boundaries over the sweep
 			n := (k * 7) % 3000
+			if big {
+				n += 66000
+			}
 			conn.EP.Write(tcpip.SlicePayload(r.Bytes(n+1)), tcpip.WriteOptions{})
 			rawpeer.Settle()
 			// acknowledgements that end inside a segment (possibly after covering whole ones),
